@@ -57,6 +57,13 @@ pub trait Plain {
 	async fn optmid(&self, a: Option<u64>, b: String) -> RpcResult<(Option<u64>, String)>;
 	#[method(name = "map2", param_kind = map)]
 	async fn map2(&self, first: u64, #[argument(rename = "type")] kind: String) -> RpcResult<(u64, String)>;
+	#[method(name = "map3", param_kind = map)]
+	async fn map3(
+		&self,
+		#[argument(rename = "BlockHash")] block_hash: String,
+		#[argument(rename = "include-proof")] include_proof: bool,
+		#[argument(rename = "MAX_DEPTH")] max_depth: Option<u64>,
+	) -> RpcResult<(String, bool, Option<u64>)>;
 	#[method(name = "mapopt", param_kind = map)]
 	fn mapopt(&self, a: u64, b: Option<String>) -> RpcResult<(u64, Option<String>)>;
 	#[method(name = "camelCaseName")]
@@ -149,6 +156,10 @@ impl PlainServer for Impl {
 	async fn map2(&self, first: u64, kind: String) -> RpcResult<(u64, String)> {
 		self.rec("map2", json!([first, kind]));
 		Ok((first, kind))
+	}
+	async fn map3(&self, block_hash: String, include_proof: bool, max_depth: Option<u64>) -> RpcResult<(String, bool, Option<u64>)> {
+		self.rec("map3", json!([block_hash, include_proof, max_depth]));
+		Ok((block_hash, include_proof, max_depth))
 	}
 	fn mapopt(&self, a: u64, b: Option<String>) -> RpcResult<(u64, Option<String>)> {
 		self.rec("mapopt", json!([a, b]));
@@ -367,7 +378,7 @@ fn collect_items(c: &Ctx<WsClient>, mut sub: Subscription<Item>, n: usize) -> Ve
 
 pub fn check(rep: &Reporter) {
 	rep.set_rule(
-		"a fixed family of #[rpc(client, server)] declarations compiled into the harness (0–4 params; trailing Option ×1 and ×2; Option in the middle; param_kind array/map; #[argument(rename)]; camelCase name; aliases; namespaces with separators `_`, `.`, `/`; sync, async, blocking; RpcResult / Result<_, ErrorObjectOwned> and error returns; subscriptions with params, Option tail, map kind, overridden notification name, aliases) served in memory and called through the generated client stubs over a real WsClient (duplex stream), a real HttpClient (bridged in process to the server's tower service), and both clients built from URLs against Server::start on a loopback socket; full product of per-type argument alphabets per method (u64/i64/u8 boundaries, f64 incl. −0.0 and 1e308, bool, all strings of length ≤ 2 over 12 (thorough 20) symbols with quotes/backslashes/NUL/controls/astral/combining characters; thorough adds a decimal ladder of 1..17 significant digits at 7 magnitudes to the f64 alphabet; vectors, nested struct with enum and map), plus hand-encoded requests for the three spellings of a trailing optional under both encodings, every alias and every namespaced name. Oracle: recorded server arguments == client arguments, client result == server return, subscription items equal and in order.",
+		"a fixed family of #[rpc(client, server)] declarations compiled into the harness (0–4 params; trailing Option ×1 and ×2; Option in the middle; param_kind array/map; #[argument(rename)] to a keyword, to PascalCase, kebab-case and SCREAMING_CASE names; camelCase name; aliases; namespaces with separators `_`, `.`, `/`; sync, async, blocking; RpcResult / Result<_, ErrorObjectOwned> and error returns; subscriptions with params, Option tail, map kind, overridden notification name, aliases) served in memory and called through the generated client stubs over a real WsClient (duplex stream), a real HttpClient (bridged in process to the server's tower service), and both clients built from URLs against Server::start on a loopback socket; full product of per-type argument alphabets per method (u64/i64/u8 boundaries, f64 incl. −0.0 and 1e308, bool, all strings of length ≤ 2 over 12 (thorough 20) symbols with quotes/backslashes/NUL/controls/astral/combining characters; thorough adds a decimal ladder of 1..17 significant digits at 7 magnitudes to the f64 alphabet; vectors, nested struct with enum and map), plus hand-encoded requests for the three spellings of a trailing optional under both encodings, every alias and every namespaced name. Oracle: recorded server arguments == client arguments, client result == server return, subscription items equal and in order.",
 	);
 	rep.assume("the `programs` quantifier is covered over this fixed family of declarations only");
 	let thorough = rep.tier.thorough();
@@ -475,6 +486,9 @@ fn stubs<C: SubscriptionClientT + Sync>(rep: &Reporter, local: &mut Local, c: &C
 		}
 		for s in strs.iter().map(|s| s.as_str()) {
 			check_call!(rep, local, c, "map2", json!([a, s]), PlainClient::map2(&c.client, a, s.to_string()), (a, s.to_string()));
+			for (p, d) in [(false, None), (true, Some(a))] {
+				check_call!(rep, local, c, "map3", json!([s, p, d]), PlainClient::map3(&c.client, s.to_string(), p, d), (s.to_string(), p, d));
+			}
 			for o in [None, Some(a)] {
 				check_call!(rep, local, c, "optmid", json!([o, s]), PlainClient::optmid(&c.client, o, s.to_string()), (o, s.to_string()));
 			}
@@ -538,6 +552,8 @@ fn stubs<C: SubscriptionClientT + Sync>(rep: &Reporter, local: &mut Local, c: &C
 	raw_call(rep, local, c, "optional-spelling", "opt2", json!([5, 6]), "opt2", json!([5, 6, null]), json!([5, 6, null]));
 	raw_call(rep, local, c, "optional-spelling", "opt2", json!([5, null, "z"]), "opt2", json!([5, null, "z"]), json!([5, null, "z"]));
 	raw_call(rep, local, c, "rename", "map2", json!({"first": 3, "type": "t"}), "map2", json!([3, "t"]), json!([3, "t"]));
+	raw_call(rep, local, c, "rename", "map3", json!({"BlockHash": "0x1", "include-proof": true, "MAX_DEPTH": 9}), "map3", json!(["0x1", true, 9]), json!(["0x1", true, 9]));
+	raw_call(rep, local, c, "rename", "map3", json!({"include-proof": false, "BlockHash": "h"}), "map3", json!(["h", false, null]), json!(["h", false, null]));
 	// ---- aliases and namespaces resolve to the same handler
 	for (alias, logged_as, params, exp) in [
 		("aliased_v2", "aliased", json!([5]), json!(15)),
